@@ -337,6 +337,10 @@ pub enum Step {
     Grant(usize),
     /// Client reads everything from now on.
     Unlimit,
+    /// The driver gives up its `NotifySender`. The accept loop has ended by
+    /// then (one connection only), so no sender is left: the connection must
+    /// keep serving queries, there is just nothing to be notified of any more.
+    DropSender,
 }
 
 #[derive(Clone, Debug)]
@@ -405,6 +409,7 @@ impl Schedule {
                 Step::Settle => s.push('S'),
                 Step::Grant(n) => s.push_str(&format!("G{}", n)),
                 Step::Unlimit => s.push('U'),
+                Step::DropSender => s.push('X'),
             }
         }
         s.push_str(" [rest S U S close S]");
@@ -571,9 +576,9 @@ pub fn run_schedule(
     crate::core::take_last_panic();
     let sock = ScriptedSocket::new(schedule.credit);
     let (positions, bound_hit) = rt.block_on(async {
-        let mut sender = NotifySender::new();
+        let mut sender = Some(NotifySender::new());
         let listener = futures_util::stream::iter(vec![Ok::<ServerEnd, io::Error>(ServerEnd(sock.clone()))]);
-        let server = Server::new(listener, sender.clone(), source.clone());
+        let server = Server::new(listener, sender.as_ref().unwrap().clone(), source.clone());
         let handle = tokio::spawn(server.run());
         let mut positions = Vec::new();
         let mut bound_hit = false;
@@ -589,9 +594,12 @@ pub fn run_schedule(
                     offset = end;
                 }
                 Step::Notify => {
-                    positions.push(locate(&sock, labels));
-                    sender.notify();
+                    if let Some(sender) = sender.as_mut() {
+                        positions.push(locate(&sock, labels));
+                        sender.notify();
+                    }
                 }
+                Step::DropSender => sender = None,
                 Step::Settle => bound_hit |= !settle(&sock).await,
                 Step::Grant(n) => sock.grant(Some(n)),
                 Step::Unlimit => sock.grant(None),
